@@ -342,5 +342,65 @@ class C14(Prop):
     def nontrivial(self, case):
         return "non-empty-answer" in case.flags and "refused-on-non-empty-index" in case.flags
 
+    # scale probe: a webentity with dozens of pages below one prefix, a child webentity created and deleted again, then every
+    # per-webentity query and every global query once, each framed by the digest of both stores
+    def extra_checks(self, ctx, tier, seed, shard, nshards):
+        if shard not in (2 % nshards, 3 % nshards):
+            return
+        from ..scale import build
+        backend = "file" if shard == 2 % nshards else "memory"
+        case = build(_Plain(), ctx, 60, 4, backend=backend)
+        try:
+            site = b"s:http|h:com|h:s000|"
+            extra = [site + b"p:x%02d|" % i for i in range(45)] + [site + b"h:www|p:y%02d|" % i for i in range(40)]
+            ops = [("pages", extra, True), ("create", [site + b"p:x01|"]), ("create", [site + b"h:www|p:y03|"])]
+            for op in ops:
+                out = case.idx.apply(op)
+                case.led.apply(op, out)
+                case.ops.append(op)
+            for w, ps in sorted(case.led.webentities().items()):
+                if ps in ([site + b"p:x01|"], [site + b"h:www|p:y03|"]):
+                    op = ("delete", w, ps)
+                    out = case.idx.apply(op)
+                    case.led.apply(op, out)
+                    case.ops.append(op)
+            wes = case.led.webentities()
+            w0 = case.led.prefix_map[site]
+            calls = []
+            for name, shape in QUERIES:
+                if shape.startswith("W"):
+                    for ps in (list(wes[w0]), [site], [site + b"h:www|"]):
+                        args = [w0, ps]
+                        rest = shape[1:]
+                        while rest:
+                            c, rest = rest[0], rest[1:]
+                            if c == "F":
+                                k = int(rest[0])
+                                rest = rest[1:]
+                                args.append([True] * k)
+                            elif c == "K":
+                                args.append(3)
+                            elif c == "D":
+                                args.append(None)
+                            elif c == "T":
+                                args.append(None)
+                            elif c == "B":
+                                args.append(False)
+                        calls.append([name] + args)
+                elif shape in ("", "B", "BB"):
+                    calls.append([name] + [True] * len(shape))
+            case.vocab = None
+            self.run_probe(case, ("probe", "queries", calls))
+            ctx.extra["scale_probe_calls"] += len(calls)
+        finally:
+            case.abort()
+
+
+class _Plain(object):
+    """property stand-in for building the scale-probe case without the write-log recorder"""
+
+    def begin(self, case):
+        pass
+
 
 PROP = C14()
